@@ -275,6 +275,20 @@ func (g *Gen) boundaryTable() []MsgSpec {
 	out = append(out, M("pnft.UpdateDenom", "id", "", "updater", o), M("pnft.UpdateDenom", "id", "bd", "updater", ""), M("pnft.DeleteDenom", "id", "", "remover", o),
 		M("pnft.TransferDenom", "id", "", "sender", o, "receiver", w), M("pnft.Transfer", "denom", "", "id", "t", "sender", o, "receiver", w), M("pnft.Transfer", "denom", "bd", "id", "", "sender", o, "receiver", w),
 		M("pnft.Burn", "denom", "", "id", "t", "burner", o), M("pnft.Burn", "denom", "bd", "id", "", "burner", o))
+	// receivers that are spellings of a valid address which bech32 does not allow (mixed case), of the sender and of another account
+	mixed := func(a string) string {
+		bs := []byte(a)
+		for i := len("panacea1"); i < len(bs); i += 3 {
+			if bs[i] >= 'a' && bs[i] <= 'z' {
+				bs[i] -= 32
+			}
+		}
+		return string(bs)
+	}
+	out = append(out, M("pnft.TransferDenom", "id", "bd", "sender", o, "receiver", mixed(o)), M("pnft.TransferDenom", "id", "bd", "sender", o, "receiver", mixed(w)),
+		M("pnft.TransferDenom", "id", "bd", "sender", mixed(o), "receiver", w), M("pnft.Transfer", "denom", "bd", "id", "t", "sender", o, "receiver", mixed(o)),
+		M("pnft.Transfer", "denom", "bd", "id", "t", "sender", o, "receiver", mixed(w)), M("aol.AddWriter", "topic", "t", "owner", o, "writer", mixed(o)),
+		M("aol.AddWriter", "topic", "t", "owner", o, "writer", mixed(w)), M("aol.DeleteWriter", "topic", "t", "owner", o, "writer", mixed(o)))
 	// DID identifiers
 	k := 3
 	good := g.env.Dids[k]
